@@ -1,7 +1,7 @@
 #!/bin/bash
 # usage: tools/run_all.sh [quick|thorough] — runs every claimed check on the current tree, prints one line each
 tier=${1:-quick}
-cd /verif
+cd "$(dirname "$0")/.."
 for c in $(python3 -c "import json;print(' '.join(x['property_id'] for x in json.load(open('MANIFEST.json'))['checks']))"); do
   t0=$(date +%s)
   out=$(VERIF_SEED=${VERIF_SEED:-1} ./run $c $tier 2>&1); rc=$?
